@@ -127,7 +127,11 @@ func (k *Keyring) RemoveKey(key []byte) error {
 	}
 	for i, installedKey := range k.keys {
 		if bytes.Equal(key, installedKey) {
-			keys := append(k.keys[:i], k.keys[i+1:]...)
+			// GetKeys hands out k.keys itself, so it must never be
+			// modified in place: build the remaining list in a new slice.
+			keys := make([][]byte, 0, len(k.keys)-1)
+			keys = append(keys, k.keys[:i]...)
+			keys = append(keys, k.keys[i+1:]...)
 			k.installKeysLocked(keys, k.keys[0])
 		}
 	}
